@@ -52,6 +52,8 @@ impl Build for Core {
             "c1" => Core::C1(),
             "w" => Core::W(aid()),
             "p" => Core::P(aid(), aid()),
+            "t3" => Core::T3(aid(), aid(), aid()),
+            "q2" => Core::Q2(s[0], aid()),
             "lam" => Core::Lam(b1(&b[0])),
             "let" => Core::Let(b1(&b[0]), aid()),
             "sum2" => Core::Sum2(aid(), b2(&b[1])),
@@ -551,7 +553,7 @@ fn text_strategy() -> BoxedStrategy<TextCase> {
     let seeds2 = seeds.clone();
     let seeds3 = seeds.clone();
     let langs = vec![LangId::Lambda, LangId::Arith, LangId::Arith2, LangId::Core, LangId::Sdql, LangId::ArrayLang, LangId::Fgh, LangId::Fp];
-    let text = prop_oneof![
+    let text = crate::one_of![ 
         // token soup
         3 => proptest::collection::vec(proptest::sample::select(toks.clone()), 0..14).prop_map(|v| v.join(" ")),
         2 => proptest::collection::vec(proptest::sample::select(toks), 0..14).prop_map(|v| v.concat()),
